@@ -1,6 +1,13 @@
 (* C08 — proofs about the pump (Conc/TlsPump.v): data-flow invariants over every trace of the multi-task system. *)
 From Coq Require Import ZArith List Bool Lia ZifyBool.
-From EN Require Import Lib.Bytes Conc.TlsBase Conc.TlsPump.
+From EN Require Import Lib.Bytes Conc.TlsBase Conc.TlsPump Gen.ParamsC08.
+
+(* the proofs must hold whatever the regenerated flag says *)
+Opaque recheck_after_recv_lock.
+Ltac go_recv H sn :=
+  unfold go in H; destruct (recv_lock _) eqn:?L; [discriminate |];
+  destruct (recheck_after_recv_lock && negb (Nat.eqb (feeds _) sn)).
+
 
 (* a trace all of whose labels the model accepts *)
 Fixpoint sys_exec (y : sys) (ls : list slab) : option (sys * list (nat * act)) :=
@@ -39,12 +46,12 @@ Lemma go_flow : forall m s p s' p' a,
   go m s p = Some (s', p', a) -> sent a ++ wbio s' = wbio s /\ fed a = [].
 Proof.
   intros m s p s' p' a H. unfold go in H.
-  destruct p as [ | k | k | | | r]; try discriminate.
+  destruct p as [ | k | k | sn | | r]; try discriminate.
   - destruct (send_lock s); try discriminate.
     destruct (wbio s) as [| w0 w] eqn:Ew.
     + destruct k; inversion H; subst; cbn; rewrite ?Ew; auto.
     + inversion H; subst. cbn. rewrite !app_nil_r. auto.
-  - destruct (recv_lock s); inversion H; subst. cbn. auto.
+  - fold (go m s (PRecvWait sn)) in H. go_recv H sn; inversion H; subst; cbn; auto.
 Qed.
 
 (* one step of one task: what goes to the wire comes out of the outgoing BIO; what came from the transport goes into
@@ -54,7 +61,7 @@ Lemma step_flow : forall m b s p l s' p' a,
   sent a ++ wbio s' = wbio s ++ delta l /\ fed a = rcvd l.
 Proof.
   intros m b s p l s' p' a H Hd.
-  destruct p as [ | k | k | | | r]; destruct l as [x | | t]; cbv beta iota delta [step] in H; try discriminate.
+  destruct p as [ | k | k | sn | | r]; destruct l as [x | | t]; cbv beta iota delta [step] in H; try discriminate.
   - (* PCall, LSsl *)
     destruct (negb _).
     + inversion H; subst. exfalso. apply Hd. left. reflexivity.
@@ -121,7 +128,7 @@ Lemma step_send_is_wbio : forall m b s p l s' p' a w,
   step m b s p l = Some (s', p', a) -> In (ASend w) a -> w = wbio s /\ wbio s' = [] /\ l = LGo.
 Proof.
   intros m b s p l s' p' a w H Hin.
-  destruct p as [ | k | k | | | r]; destruct l as [x | | t]; cbv beta iota delta [step] in H; try discriminate.
+  destruct p as [ | k | k | sn | | r]; destruct l as [x | | t]; cbv beta iota delta [step] in H; try discriminate.
   - destruct (negb _); [inversion H; subst; cbn in Hin; intuition discriminate |].
     cbv zeta in H. destruct (a_out x).
     + destruct m; try (inversion H; subst; cbn in Hin; intuition discriminate; fail).
@@ -142,7 +149,7 @@ Proof.
     + inversion H; subst; cbn in Hin; intuition discriminate.
     + destruct k; inversion H; subst; cbn in Hin; intuition discriminate.
     + inversion H; subst; cbn in Hin; intuition discriminate.
-  - unfold go in H. destruct (recv_lock s); inversion H; subst. cbn in Hin; intuition discriminate.
+  - go_recv H sn; inversion H; subst; cbn in Hin; intuition discriminate.
   - destruct t; inversion H; subst; cbn in Hin; intuition discriminate.
   - destruct t as [d | | | | bt]; try discriminate; cbv zeta in H.
     + destruct d; inversion H; subst; cbn in Hin; intuition discriminate.
@@ -154,12 +161,12 @@ Qed.
 
 (* a task reaches "waiting to read" only from the flush point of the WANT_READ branch, either because the outgoing BIO
    was empty when it held the send lock, or after its send_all of the whole outgoing BIO returned *)
-Lemma recvwait_only_after_flush : forall m b s p l s' a,
-  step m b s p l = Some (s', PRecvWait, a) ->
-  (p = PFlush KRead /\ l = LGo /\ wbio s = [] /\ a = []) \/ (p = PSending KRead /\ l = LT TSent).
+Lemma recvwait_only_after_flush : forall m b s p l s' a n,
+  step m b s p l = Some (s', PRecvWait n, a) ->
+  (p = PFlush (KRead n) /\ l = LGo /\ wbio s = [] /\ a = []) \/ (p = PSending (KRead n) /\ l = LT TSent).
 Proof.
-  intros m b s p l s' a H.
-  destruct p as [ | k | k | | | r]; destruct l as [x | | t]; cbv beta iota delta [step] in H; try discriminate.
+  intros m b s p l s' a n H.
+  destruct p as [ | k | k | sn | | r]; destruct l as [x | | t]; cbv beta iota delta [step] in H; try discriminate.
   - destruct (negb _); [inversion H |]. cbv zeta in H. destruct (a_out x); try (inversion H; fail).
     destruct m; try (inversion H; fail).
     match type of H with context [match ?d with [] => Some _ | _ :: _ => Some _ end] => destruct d end; inversion H.
@@ -171,11 +178,11 @@ Proof.
   - destruct t; inversion H.
   - destruct t as [d | | | | bt]; try discriminate; cbv zeta in H.
     + destruct k; cbn in H.
-      * right; auto.
+      * inversion H; subst. right; auto.
       * unfold pcall in H. destruct m; try (inversion H; fail). destruct (deque _); inversion H.
       * inversion H.
     + destruct k; inversion H.
-  - unfold go in H. destruct (recv_lock s); inversion H.
+  - go_recv H sn; [unfold pcall in H; destruct m; try destruct (deque s); inversion H | inversion H].
   - destruct t; inversion H.
   - destruct t as [d | | | | bt]; try discriminate; cbv zeta in H.
     destruct d; inversion H as [[H1 H2 H3]]; unfold pcall in H2; destruct m; try discriminate; destruct (deque _); discriminate.
@@ -183,10 +190,10 @@ Qed.
 
 (* recv_into is started only from "waiting to read" *)
 Lemma recv_only_from_recvwait : forall m b s p l s' p' a,
-  step m b s p l = Some (s', p', a) -> In ARecv a -> p = PRecvWait /\ l = LGo /\ p' = PRecving.
+  step m b s p l = Some (s', p', a) -> In ARecv a -> (exists n, p = PRecvWait n) /\ l = LGo /\ p' = PRecving.
 Proof.
   intros m b s p l s' p' a H Hin.
-  destruct p as [ | k | k | | | r]; destruct l as [x | | t]; cbv beta iota delta [step] in H; try discriminate.
+  destruct p as [ | k | k | sn | | r]; destruct l as [x | | t]; cbv beta iota delta [step] in H; try discriminate.
   - destruct (negb _); [inversion H; subst; cbn in Hin; intuition discriminate |].
     cbv zeta in H. destruct (a_out x).
     + destruct m; try (inversion H; subst; cbn in Hin; intuition discriminate; fail).
@@ -206,7 +213,7 @@ Proof.
     + inversion H; subst; cbn in Hin; intuition discriminate.
     + destruct k; inversion H; subst; cbn in Hin; intuition discriminate.
     + inversion H; subst; cbn in Hin; intuition discriminate.
-  - unfold go in H. destruct (recv_lock s); inversion H; subst. auto.
+  - go_recv H sn; inversion H; subst; [cbn in Hin; intuition discriminate | eauto].
   - destruct t; inversion H; subst; cbn in Hin; intuition discriminate.
   - destruct t as [d | | | | bt]; try discriminate; cbv zeta in H.
     + destruct d; inversion H; subst; cbn in Hin; intuition discriminate.
@@ -220,8 +227,8 @@ Lemma wantread_flushes_first : forall m b s x,
   a_meth x = m -> a_arg x = expected_arg m b s -> a_out x = SWantRead ->
   send_lock s = false -> wbio s ++ a_wdelta x <> [] ->
   exists s1 s2,
-    step m b s PCall (LSsl x) = Some (s1, PFlush KRead, []) /\
-    settle m s1 (PFlush KRead) = (s2, PSending KRead, [ASend (wbio s ++ a_wdelta x)]) /\
+    step m b s PCall (LSsl x) = Some (s1, PFlush (KRead (feeds s)), []) /\
+    settle m s1 (PFlush (KRead (feeds s))) = (s2, PSending (KRead (feeds s)), [ASend (wbio s ++ a_wdelta x)]) /\
     wbio s2 = [].
 Proof.
   intros m b s x Hm Ha Ho Hl Hne.
